@@ -123,7 +123,8 @@ def _abstract_ising_model(ref_tree: Union[TreeStructure, List[Tuple[str, str]]],
                           ext_magn: float,
                           coupling: float,
                           ext_magn_op: Tuple[str,ndarray],
-                          nn_op: Tuple[str,ndarray]
+                          nn_op: Tuple[str,ndarray],
+                          sites: Union[List[str],None] = None
                           ) -> Hamiltonian:
     """
     Generates the Ising model with an external magnetic field for a full
@@ -139,6 +140,9 @@ def _abstract_ising_model(ref_tree: Union[TreeStructure, List[Tuple[str, str]]],
             magnetic field.
         nn_op (Tuple[str,ndarray]): The operator for the nearest neighbour
             coupling.
+        sites (Union[List[str],None]): All site identifiers, if the nearest
+            neighbours are given as a list of pairs. If None, the sites are
+            taken from the pairs.
 
     Returns:
         Hamiltonian: The Hamiltonian of the Ising model.
@@ -153,6 +157,8 @@ def _abstract_ising_model(ref_tree: Union[TreeStructure, List[Tuple[str, str]]],
     # We need to prepare the identifiers for the single site Hamiltonian
     if isinstance(ref_tree, TreeStructure):
         single_site_structure = ref_tree
+    elif sites is not None:
+        single_site_structure = list(sites)
     else:
         # We assume all identifiers that possibly occur are in the nearest
         # neighbour list
@@ -278,7 +284,10 @@ def _abstract_2D_ising(grid: Union[tuple[str,int,int],ArrayLike],
     if isinstance(grid, tuple) and len(grid) == 3:
         grid = _grid_from_structure(grid[0], grid[1], grid[2])
     pairs = _find_nn_pairs(grid)
-    return _abstract_ising_model(pairs, ext_magn, coupling, ext_magn_op, nn_op)
+    # A site without any neighbour (1x1 grid) is still subject to the field.
+    sites = [identifier for row in grid for identifier in row]
+    return _abstract_ising_model(pairs, ext_magn, coupling, ext_magn_op, nn_op,
+                                 sites=sites)
 
 def _grid_from_structure(prefix: str,
                          rows: int,
